@@ -149,13 +149,8 @@ func nonNilIsAny(err error, matches []error) bool {
 			}
 
 		case interface{ Unwrap() []error }:
-			wrapped := u.Unwrap()
-			if more == nil {
-				// ensure append (up next) copies, just in case
-				more = wrapped[:len(wrapped):len(wrapped)]
-			} else {
-				more = append(more, wrapped...)
-			}
+			// append copies; the slice belongs to the error value
+			more = append(more, u.Unwrap()...)
 		}
 
 		if len(more) == 0 {
